@@ -30,6 +30,7 @@ func main() {
 		verbose = flag.Bool("v", false, "print every obligation instance")
 		list    = flag.Bool("list", false, "list properties and obligations")
 		noSelf  = flag.Bool("noselftest", false, "thorough: skip the rule liveness self-test")
+		noSweep = flag.Bool("nosweep", false, "thorough: skip the condition sensitivity sweep")
 		dump    = flag.String("dump", "", "debug: print the CFG of the named function and exit")
 		dumpPar = flag.Bool("dumpparams", false, "maintenance: print the parameter-name table of the module's functions (frozen in paramtable.go)")
 	)
@@ -148,6 +149,11 @@ func main() {
 		selftest = runSelfTest(p0, prop, results)
 		for k, v := range runStabilityTest(p0, prop, funcs) {
 			selftest[k] = v
+		}
+		if !*noSweep {
+			for k, v := range runSensitivitySweep(p0, prop, funcs) {
+				selftest[k] = v
+			}
 		}
 	}
 
